@@ -45,6 +45,7 @@ def load_contracts(src):
         import contracts.repeaters as _rp
         _rp.register_repeaters(src)
         _rp.register_array_build(src)
+        _rp.register_sum_sizes(src)
         import contracts.alternatives as _al
         _al.register_alternatives(src)
     import contracts.classes as cc
